@@ -156,13 +156,16 @@ def normalOrderedTwoBody (n : Nat) (T : List GQ) : List GQ :=
 
 /-! ### `chemist_ordered` (on a two-body number conserving FermionOperator) -/
 
+/-- the body of the loop over the normal-ordered terms -/
+def chemistStep (tol : Rat) (acc : Op) (t : Term) (c : GQ) : Op :=
+  match t with
+  | [t0, t1, t2, t3] =>
+    let acc1 := if t1.1 = t2.1 then iadd tol acc (mk .fermion [t0, t3] c) else acc
+    iadd tol acc1 (mk .fermion [t0, t2, t1, t3] (-c))
+  | _ => iadd tol acc (mk .fermion t c)
+
 def chemistOrdered (tol : Rat) (a : Op) : Op :=
-  (normalOrdered tol .fermion a).foldl (fun acc (t, c) =>
-    match t with
-    | [t0, t1, t2, t3] =>
-      let acc1 := if t1.1 = t2.1 then iadd tol acc (mk .fermion [t0, t3] c) else acc
-      iadd tol acc1 (mk .fermion [t0, t2, t1, t3] (-c))
-    | _ => iadd tol acc (mk .fermion t c)) []
+  (normalOrdered tol .fermion a).foldl (fun acc x => chemistStep tol acc x.1 x.2) []
 
 /-! ### `reorder` with an explicit mode map (a list: old index ↦ new index) -/
 
